@@ -6,9 +6,9 @@
 package fake
 
 import (
-	"errors"
 	"fmt"
 	"net"
+	"os"
 	"sync"
 )
 
@@ -18,7 +18,8 @@ type Call struct {
 	Req    []byte
 }
 
-var ErrTimeout = errors.New("i/o timeout")
+// what a read past its deadline returns in the real driver: an error that wraps os.ErrDeadlineExceeded
+var ErrTimeout = fmt.Errorf("read udp: i/o timeout (%w)", os.ErrDeadlineExceeded)
 
 type Driver struct {
 	mu        sync.Mutex
@@ -38,7 +39,10 @@ func (d *Driver) record(m, addr string, req []byte) {
 // fresh returns a private copy of datagram i, the way a socket read fills a fresh buffer.
 func (d *Driver) fresh(i int) []byte {
 	b := append(make([]byte, 0, len(d.Datagrams[i])+8), d.Datagrams[i]...)
+	d.mu.Lock()
 	d.delivered = append(d.delivered, b)
+	d.Consumed++
+	d.mu.Unlock()
 	return b
 }
 
@@ -59,7 +63,6 @@ func (d *Driver) Broadcast(addr *net.UDPAddr, req []byte) ([][]byte, error) {
 	out := [][]byte{}
 	for i := range d.Datagrams {
 		out = append(out, d.fresh(i))
-		d.Consumed++
 	}
 	return out, nil
 }
@@ -71,7 +74,6 @@ func (d *Driver) BroadcastTo(addr *net.UDPAddr, req []byte, cb func([]byte) bool
 	}
 	for i := range d.Datagrams {
 		b := d.fresh(i)
-		d.Consumed++
 		if cb(b) {
 			return b, nil
 		}
@@ -87,7 +89,6 @@ func (d *Driver) directed(m string, addr string, req []byte) ([]byte, error) {
 	if len(d.Datagrams) == 0 {
 		return nil, ErrTimeout
 	}
-	d.Consumed++
 	return d.fresh(0), nil
 }
 
